@@ -539,10 +539,10 @@ def run(ctx):
     ctx.assumptions += ["item fields are only accessed by the statements of queue.go (the instrumenter places a yield point before each)",
                         "stream-level theorems treat a subscriber's queue as an atomic FIFO; that is what the queue-level theorem proves for the non-recycling queue"]
     thorough = ctx.thorough
-    n_q = 1200 if thorough else 220
-    n_seq = 600 if thorough else 120
-    n_t = 900 if thorough else 160
-    rounds = 150 if thorough else 25
+    n_q = 1500 if thorough else 400
+    n_seq = 800 if thorough else 200
+    n_t = 1200 if thorough else 300
+    rounds = 150 if thorough else 40
 
     inst, msg = sched_util.instrument(ctx, "internal/queue/queue.go", "queue_instr.go", RULES, FIELDS)
     if inst is None:
@@ -658,7 +658,7 @@ def run(ctx):
                 reported.add(SIG_POOL)
                 ctx.violation(SIG_POOL, what, replay)
             return
-        if sig in reported and len(reported) > 6:
+        if sig in reported or len(reported) >= 6:
             return
         reported.add(sig)
         ctx.violation(sig, what, replay)
@@ -744,7 +744,10 @@ def run(ctx):
     })
 
 
-THEOREMS = ["C20_pool_aba_refuted", "C20_pool_value_cleared_refuted"]
+THEOREMS = ["C20_pool_aba_refuted", "C20_pool_value_cleared_refuted", "C20_queue_fifo_partial", "C20_queue_results_partial",
+            "C20_queue_exactly_once_partial", "C20_queue_empty_partial", "C20_queue_producer_order_partial",
+            "C20_stream_publish_order", "C20_stream_at_most_once", "C20_stream_delivered", "C20_stream_only_subscribers",
+            "C20_stream_unsubscribed_stays_out"]
 
 META = {
     "category": "proof",
